@@ -30,8 +30,27 @@ def one(it):
     print(cid, os.path.basename(m), status, flush=True)
     return {"property": cid, "mutant": os.path.relpath(m, HERE), "status": status, "signatures": sigs, "note": note}
 
+# mutants of one property share its build directory: run them one after the other, properties in parallel
+groups = {}
+for it in items:
+    groups.setdefault(it[0], []).append(it)
+prev = {}
+rp = os.path.join(HERE, "mutants", "RESULTS.json")
+if os.environ.get("MUTSWEEP_RETRY") and os.path.exists(rp):
+    prev = {r["mutant"]: r for r in json.load(open(rp))}
+
+def group(cid):
+    out = []
+    for it in groups[cid]:
+        rel = os.path.relpath(it[1], HERE)
+        if rel in prev and prev[rel]["status"] in ("caught", "missed", "not-applicable"):
+            out.append(prev[rel])
+            continue
+        out.append(one(it))
+    return out
+
 with ThreadPoolExecutor(max_workers=jobs) as ex:
-    res = list(ex.map(one, items))
+    res = [r for g in ex.map(group, sorted(groups)) for r in g]
 json.dump(res, open(os.path.join(HERE, "mutants", "RESULTS.json"), "w"), indent=1)
 print("caught", sum(r["status"] == "caught" for r in res), "missed", sum(r["status"] == "missed" for r in res),
       "other", sum(r["status"] not in ("caught", "missed") for r in res))
